@@ -118,6 +118,10 @@ class StateVectorEvolution(MatrixData, BasisManaged):
         else:
             S1 = inv
 
+        # the representation in a complex basis is complex: real storage
+        # would silently drop its imaginary part
+        if numpy.iscomplexobj(SS) and not numpy.iscomplexobj(self._data):
+            self._data = self._data.astype(numpy.complex128)
         for nt in range(self.TimeAxis.length):
             self._data[nt,:] = numpy.dot(S1,self._data[nt,:])
 
